@@ -34,6 +34,8 @@ def run(args, workdir, flavour="rel", env=None, timeout=300, stdin=None):
     """args: list of command-line arguments (without argv[0]).  Always passes '-c /dev/null' unless a config is given,
     so that no stray default.cfg is read."""
     exe = os.environ["VERIF_" + flavour.upper()]
+    if any(isinstance(a, str) and a.endswith("zgen.dat") for a in args) and not os.path.exists(os.path.join(workdir, "zgen.dat")):
+        write_zgen(os.path.join(workdir, "zgen.dat"))
     e = dict(os.environ)
     e.pop("INOVESA_VERIF_SIGINT_AT", None)
     e.pop("INOVESA_VERIF_IP_LOG", None)
@@ -49,6 +51,18 @@ def run(args, workdir, flavour="rel", env=None, timeout=300, stdin=None):
         return Run(p.returncode, p.stdout.decode(errors="replace"), p.stderr.decode(errors="replace"), workdir)
     except subprocess.TimeoutExpired as t:
         return Run(None, (t.stdout or b"").decode(errors="replace"), (t.stderr or b"").decode(errors="replace"), workdir, True)
+
+
+def write_zgen(path, rows=8192):
+    """the generated impedance table used by base_config's wake kind 'file': a smooth passive impedance, one row per
+    frequency index (line number, real, imaginary); longer than any transform length the generators produce, the program
+    takes the rows it needs"""
+    k = np.arange(rows)
+    zr = 200.0 * (1 + 0.3 * np.sin(k / 17.0))
+    zi = 0.5 * k / rows * 100.0 * 200.0 / 100.0
+    with open(path, "w") as f:
+        for i in range(rows):
+            f.write("%d %.9g %.9g\n" % (i, zr[i], zi[i]))
 
 
 class H5:
